@@ -266,8 +266,16 @@ fn value_of_node(enc: Enc, ty: &Ty, n: &Node, op: Option<Op>) -> Option<String> 
             }
             _ => None,
         },
-        Node::Header(..) | Node::Rgb(..) | Node::Mixed(..) => None,
+        // a header value read with a scalar target (not `any`: the tape path would present the body) is its
+        // name on both paths; the body is skipped
+        Node::Header(name, _) => if has_any(ty) { None } else { value_of_leaf(enc, ty, &Leaf::Unq(name.clone())) },
+        Node::Rgb(..) => if has_any(ty) { None } else { value_of_leaf(enc, ty, &Leaf::Unq(b"rgb".to_vec())) },
+        Node::Mixed(..) => None,
     }
+}
+
+fn has_any(t: &Ty) -> bool {
+    match t { Ty::Any => true, Ty::Opt(x) | Ty::Seq(x) | Ty::Map(x) | Ty::Prop(x) => has_any(x), Ty::Struct(fs) => fs.iter().any(|(_, x)| has_any(x)), _ => false }
 }
 
 fn value_of(enc: Enc, ty: &Ty, doc: &Doc) -> Option<String> {
@@ -367,7 +375,12 @@ fn gen_node_ty(rng: &mut Rng, n: &Node, cfg: &TyCfg) -> Ty {
                 Ty::Seq(Box::new(Ty::Ign))
             }
         }
-        Node::Rgb(..) | Node::Header(..) | Node::Mixed(..) => if rng.chance(1, 6) { Ty::Opt(Box::new(Ty::Ign)) } else { Ty::Ign },
+        Node::Rgb(..) | Node::Header(..) | Node::Mixed(..) => match rng.below(8) {
+            0 => Ty::Opt(Box::new(Ty::Ign)),
+            1 => Ty::Str,
+            2 => Ty::Enum(vec!["LIST".into(), "hsv".into(), "rgb".into()]),
+            _ => Ty::Ign,
+        },
     }
 }
 
@@ -508,6 +521,11 @@ fn ser_node(n: &Node) -> Option<String> {
         Node::Leaf(l) => Some(match l { Leaf::Quo(b) => format!("q{}", hex(b)), other => format!("u{}", hex(&leaf_text(other).0)) }),
         Node::Obj(fs) if !fs.is_empty() => Some(format!("o[{}]", ser_fields(fs)?)),
         Node::Arr(vs) => Some(format!("a[{}]", vs.iter().map(ser_node).collect::<Option<Vec<_>>>()?.join(";"))),
+        Node::Header(name, body) if matches!(**body, Node::Obj(_) | Node::Arr(_)) => Some(format!("h{}:{}", hex(name), ser_node(body)?)),
+        Node::Rgb(r, g, b, a) => {
+            let cs: Vec<String> = [Some(*r), Some(*g), Some(*b), *a].iter().flatten().map(|c| format!("u{}", hex(c.to_string().as_bytes()))).collect();
+            Some(format!("h{}:a[{}]", hex(b"rgb"), cs.join(";")))
+        }
         _ => None,
     }
 }
